@@ -514,13 +514,18 @@ Print Assumptions C16_concurrent_budget.
    concurrentCache.Set / store, the single-context cache's Set and Client.Do, re-read from
    the Go source on every run, is the order the models assume *)
 Theorem C16_source_call_order :
-  calls_cc_set = [b "cc.status.LoadOrStore"; b "fetchOnce.Do"; b "fetch"; b "cc.status.Delete"] /\
-  calls_cc_store = [b "cc.cache.LoadOrStore"; b "cc.cache.Store"; b "entry.tokens.Store"] /\
-  (calls_fallback_set = [b "fc.primary.Set"; b "fc.secondary.Set"] /\
-   calls_host_set = [b "fetch"; b "cc.store"; b "c.Cache.Set"]) /\
-  calls_do = [b "c.send"; b "cache.GetScheme"; b "cache.GetToken"; b "cache.GetToken"; b "c.send";
-              b "cache.Set"; b "cache.GetToken"; b "rewindRequestBody"; b "c.send"; b "cache.Set";
-              b "rewindRequestBody"; b "c.send"].
+  (all_after (b "fetchOnce.Do") (b "cc.status.LoadOrStore") calls_cc_set = true /\
+   all_after (b "fetch") (b "fetchOnce.Do") calls_cc_set = true /\
+   all_after (b "cc.status.Delete") (b "fetchOnce.Do") calls_cc_set = true) /\
+  (all_after (b "entry.tokens.Store") (b "cc.cache.LoadOrStore") calls_cc_store = true /\
+   none_after (b "entry.tokens.Store") (b "cc.cache.Store") calls_cc_store = true) /\
+  (all_after (b "fc.secondary.Set") (b "fc.primary.Set") calls_fallback_set = true /\
+   none_after (b "fc.secondary.Set") (b "fc.primary.Set") calls_fallback_set = true /\
+   all_after (b "cc.store") (b "fetch") calls_host_set = true) /\
+  (all_after (b "cache.GetToken") (b "cache.GetScheme") calls_do = true /\
+   all_after (b "cache.Set") (b "cache.GetToken") calls_do = true /\
+   eventually (b "cache.Set") (b "rewindRequestBody") calls_do = true /\
+   next_is (b "rewindRequestBody") (b "c.send") calls_do = true).
 Proof. exact (conj cc_set_order (conj cc_store_order (conj fallback_set_order do_order))). Qed.
 Print Assumptions C16_source_call_order.
 
